@@ -1,6 +1,9 @@
 /-
   C18 model, range-proof part (core Lean only, executable).
 
+  The EL / SQR proofs, `generate_response` and `PengBaoPublicData.check` are GENERATED (GenRange.lean) from boudot.py and
+  structs.py on every run; this file holds the hand-written rest: create_attest_pair and whole rounds.
+
   Mirrors
     pengbaorange/boudot.py       EL.create / EL.check, SQR.create / SQR.check
     pengbaorange/attestation.py  create_attest_pair
@@ -11,177 +14,31 @@
   Randomness is explicit: the record `RangeRand` holds the values the code ends up using (for the `while not m`
   loops: the accepted draw).
 -/
-import Ipv8.C18.Proto
+import Ipv8.C18.GenAttest
 
 namespace Ipv8.C18
 
-structure ELProof where
-  c : Int
-  D : Int
-  D1 : Int
-  D2 : Int
-deriving DecidableEq, Repr
-
-structure SQRProof (G : Type) where
-  F : G
-  el : ELProof
-
-/-- randomness of one EL.create -/
-structure ELRand where
-  w : Int
-  n1 : Int
-  n2 : Int
-
 section
 variable {G : Type} (o : GroupOps G) (hash : G → G → Int)
 
-/-- the two commitments W1, W2 of `EL.create` -/
-def elCommit (g1 h1 g2 h2 : G) (rnd : ELRand) : G × G :=
-  (o.mul (o.pow g1 rnd.w) (o.pow h1 rnd.n1), o.mul (o.pow g2 rnd.w) (o.pow h2 rnd.n2))
-
-/-- `EL.create(x, r1, r2, g1, h1, g2, h2, …)` -/
-def elCreate (x r1 r2 : Int) (g1 h1 g2 h2 : G) (rnd : ELRand) : ELProof :=
-  let W := elCommit o g1 h1 g2 h2 rnd
-  let c := hash W.1 W.2
-  { c := c, D := rnd.w + c * x, D1 := rnd.n1 + c * r1, D2 := rnd.n2 + c * r2 }
-
-/-- the two values `EL.check` hashes -/
-def elCheckPre (e : ELProof) (g1 h1 g2 h2 y1 y2 : G) : G × G :=
-  (o.mul (o.mul (o.pow g1 e.D) (o.pow h1 e.D1)) (o.pow y1 (-e.c)),
-   o.mul (o.mul (o.pow g2 e.D) (o.pow h2 e.D2)) (o.pow y2 (-e.c)))
-
-/-- `EL.check(g1, h1, g2, h2, y1, y2)` -/
-def elCheck (e : ELProof) (g1 h1 g2 h2 y1 y2 : G) : Bool :=
-  let W := elCheckPre o e g1 h1 g2 h2 y1 y2
-  e.c == hash W.1 W.2
-
-/-- `SQR.create(x, r1, g, h, …)` with its own draw r2 and the randomness of the inner EL -/
-def sqrCreate (x r1 : Int) (g h : G) (r2 : Int) (rnd : ELRand) : SQRProof G :=
-  let F := o.mul (o.pow g x) (o.pow h r2)
-  let r3 := r1 - r2 * x
-  { F := F, el := elCreate o hash x r2 r3 g h F h rnd }
-
-/-- `SQR.check(g, h, y)` -/
-def sqrCheck (s : SQRProof G) (g h y : G) : Bool :=
-  elCheck o hash s.el g h s.F h s.F y
-
-end
-
-structure Commitment (G : Type) where
-  c : G
-  c1 : G
-  c2 : G
-  ca : G
-  ca1 : G
-  ca2 : G
-  ca3 : G
-  caa : G
-
-structure RangePriv where
-  m1 : Int
-  m2 : Int
-  m3 : Int
-  r1 : Int
-  r2 : Int
-  r3 : Int
-deriving DecidableEq, Repr
-
-structure RangePublic (G : Type) where
-  com : Commitment G
-  el : ELProof
-  sqr1 : SQRProof G
-  sqr2 : SQRProof G
-
-/-- the values `create_attest_pair` draws (accepted draws of the rejection loops) -/
-structure RangeRand where
-  r : Int
-  ra : Int
-  raa0 : Int      -- raa = raa0 * raa0
-  w : Int
-  m4 : Int
-  m1 : Int
-  r1 : Int
-  r2 : Int
-  el : ELRand
-  sq1r2 : Int
-  sq1 : ELRand
-  sq2r2 : Int
-  sq2 : ELRand
-
-/-- `mst = w2 * (value - a + 1) * (b - value + 1)` -/
-def mstOf (w value a b : Int) : Int := w * w * (value - a + 1) * (b - value + 1)
-
-/-- `PengBaoCommitmentPrivate.generate_response(s, t)` -/
-def RangePriv.response (pv : RangePriv) (s t : Int) : Int × Int × Int × Int :=
-  (s * pv.m1 + pv.m2 + pv.m3, pv.m1 + t * pv.m2 + pv.m3, s * pv.r1 + pv.r2 + pv.r3, pv.r1 + t * pv.r2 + pv.r3)
-
-section
-variable {G : Type} (o : GroupOps G) (hash : G → G → Int)
-
-/-- the commitments and private values of `create_attest_pair`'s algebra for an arbitrary m2 (the honest code takes
-    m2 = mst - m1 - m4²; a prover who deviates only there is `cheatRound` below) -/
-def rangeCommitWith (g h : G) (value a b : Int) (rnd : RangeRand) (m2 : Int) : Commitment G × RangePriv :=
-  let raa := rnd.raa0 * rnd.raa0
-  let w2 := rnd.w * rnd.w
-  let c := o.mul (o.pow g value) (o.pow h rnd.r)
-  let c1 := o.div c (o.pow g (a - 1))
-  let c2 := o.div (o.pow g (b + 1)) c
-  let ca := o.mul (o.pow c1 (b - value + 1)) (o.pow h rnd.ra)
-  let caa := o.mul (o.pow ca w2) (o.pow h raa)
-  let m3 := rnd.m4 * rnd.m4
-  let rst := w2 * ((b - value + 1) * rnd.r + rnd.ra) + raa
-  let r3 := rst - rnd.r1 - rnd.r2
-  let ca1 := o.mul (o.pow g rnd.m1) (o.pow h rnd.r1)
-  let ca2 := o.mul (o.pow g m2) (o.pow h rnd.r2)
-  let ca3 := o.div caa (o.mul ca1 ca2)
-  ({ c := c, c1 := c1, c2 := c2, ca := ca, ca1 := ca1, ca2 := ca2, ca3 := ca3, caa := caa },
-   { m1 := rnd.m1, m2 := m2, m3 := m3, r1 := rnd.r1, r2 := rnd.r2, r3 := r3 })
-
-/-- the commitments and private values of `create_attest_pair` (no failure modelled here) -/
-def rangeCommit (g h : G) (value a b : Int) (rnd : RangeRand) : Commitment G × RangePriv :=
-  rangeCommitWith o g h value a b rnd (mstOf rnd.w value a b - rnd.m1 - rnd.m4 * rnd.m4)
-
-/-- `create_attest_pair(PK, value, a, b, bitspace)`.
-    `none` models "no attestation comes out": for `mst < 0` the code raises (`sqrt` of a negative number), for
+/-- `create_attest_pair(PK, value, a, b, bitspace)`: the failure modes (hand-written, they mirror exceptions and a loop
+    that does not end) in front of the GENERATED algebra `attestAlgebra`.
+    `none` models "no attestation comes out": for `mst < 0` the code raises (`isqrt` of a negative number), for
     `mst = 0` and `4 ≤ mst < 9` the `while not m4` loop never ends, for `0 < mst < 4` the modulus is 0
     (ZeroDivisionError); for a format with `max ≤ 0` `EL.create` raises (known finding). -/
 def createAttestPair (g h : G) (value a b : Int) (rnd : RangeRand) : Option (RangePublic G × RangePriv) :=
-  let mst := mstOf rnd.w value a b
+  let mst := attestMst value a b rnd
   if mst ≤ 0 then none
   else if Nat.sqrt mst.toNat < 3 then none
   else if b ≤ 0 then none      -- EL.create: `maxrange_w = 2 ^ (l + t) * b - 1` (XOR) is negative, secure_randint raises
-  else
-    let (com, pv) := rangeCommit o g h value a b rnd
-    let raa := rnd.raa0 * rnd.raa0
-    let el := elCreate o hash (b - value + 1) (-rnd.r) rnd.ra g h com.c1 h rnd.el
-    let sqr1 := sqrCreate o hash rnd.w raa com.ca h rnd.sq1r2 rnd.sq1
-    let sqr2 := sqrCreate o hash rnd.m4 pv.r3 g h rnd.sq2r2 rnd.sq2
-    some ({ com := com, el := el, sqr1 := sqr1, sqr2 := sqr2 }, pv)
+  else some (attestAlgebra o hash g h value a b rnd none)
 
-/-- `PengBaoPublicData.check(a, b, s, t, x, y, u, v)` -/
-def rangeCheck (g h : G) (pd : RangePublic G) (a b s t x y u v : Int) : Bool :=
-  let cm := pd.com
-  elCheck o hash pd.el g h cm.c1 h cm.c2 cm.ca
-  && sqrCheck o hash pd.sqr1 cm.ca h cm.caa
-  && sqrCheck o hash pd.sqr2 g h cm.ca3
-  && o.eq cm.c1 (o.div cm.c (o.pow g (a - 1)))
-  && o.eq cm.c2 (o.div (o.pow g (b + 1)) cm.c)
-  && o.eq cm.caa (o.mul (o.mul cm.ca1 cm.ca2) cm.ca3)
-  && o.eq (o.mul (o.pow g x) (o.pow h u)) (o.mul (o.mul (o.pow cm.ca1 s) cm.ca2) cm.ca3)
-  && o.eq (o.mul (o.pow g y) (o.pow h v)) (o.mul (o.mul cm.ca1 (o.pow cm.ca2 t)) cm.ca3)
-  && decide (x > 0)
-  && decide (y > 0)
-
-/-- a prover who follows `create_attest_pair` for ANY value (no failure for values outside the range) but chooses m2
-    itself, answers the challenge (s, t) with `generate_response`, and is checked -/
+/-- a prover who follows `create_attest_pair`'s algebra for ANY value (no failure for values outside the range) but
+    chooses m2 itself, answers the challenge (s, t) with `generate_response`, and is checked -/
 def cheatRound (g h : G) (value a b : Int) (rnd : RangeRand) (m2 s t : Int) : Bool :=
-  let (com, pv) := rangeCommitWith o g h value a b rnd m2
-  let raa := rnd.raa0 * rnd.raa0
-  let el := elCreate o hash (b - value + 1) (-rnd.r) rnd.ra g h com.c1 h rnd.el
-  let sqr1 := sqrCreate o hash rnd.w raa com.ca h rnd.sq1r2 rnd.sq1
-  let sqr2 := sqrCreate o hash rnd.m4 pv.r3 g h rnd.sq2r2 rnd.sq2
+  let (pd, pv) := attestAlgebra o hash g h value a b rnd (some m2)
   let (x, y, u, v) := pv.response s t
-  rangeCheck o hash g h { com := com, el := el, sqr1 := sqr1, sqr2 := sqr2 } a b s t x y u v
+  rangeCheck o hash g h pd a b s t x y u v
 
 /-- one query to the verifier: its range, the challenge and the answers -/
 structure RangeQuery where
